@@ -15,6 +15,7 @@ q in lecturer_lists[k] <=> l(q)=k, q in rank_lists[r-1] <=> rs(q)=r); those four
 obligations of C01.R4 / C03.R4 / C10."""
 import ast
 
+import re
 from .terms import *
 from .poly import *
 from .absint import Interp, Eff, iter_effects
@@ -124,8 +125,30 @@ class Family:
                 d[k] = Mono(padd(d[k].coef, m.coef), m.var, m.sumvar, m.preds)
             else:
                 d[k] = m
-        self.monos = [m for m in d.values() if m.coef]
+        self.monos = self.merge_head([m for m in d.values() if m.coef])
         self.normalise()
+
+    @staticmethod
+    def merge_head(monos):
+        """{q in row : pos(q) < 1}  u  {q in row : pos(q) >= 1, rs(q) <= rs(p)}  =  {q in row : rs(q) <= rs(p)}:
+        the head of a student's row has rank 1 and every rank is >= 1 (dense ranks from 1: C10.R1 / C13)"""
+        head = pred_text('Lt', psub(patom('pos(q)'), pconst(1)))
+        tail = pred_text('GtE', psub(patom('pos(q)'), pconst(1)))
+        out = list(monos)
+        for m1 in monos:
+            if m1.sumvar != 'q' or head not in m1.preds:
+                continue
+            base = tuple(x for x in m1.preds if x != head)
+            for m2 in monos:
+                if m2 is m1 or m2.sumvar != 'q' or m2.var != m1.var or m2.coef != m1.coef or tail not in m2.preds:
+                    continue
+                extra = [x for x in m2.preds if x != tail and x not in base]
+                if set(base) <= set(m2.preds) and len(extra) == 1 and re.fullmatch(r'rs\((\w+)\) - rs\(q\) >= 0|-rs\((\w+)\) \+ rs\(q\) <= 0', extra[0]):
+                    if m1 in out and m2 in out:
+                        out.remove(m1)
+                        out.remove(m2)
+                        out.append(Mono(m1.coef, m1.var, 'q', base + (extra[0],)))
+        return out
 
     def normalise(self):
         # orientation: '<=' or '=='; for '==' make the lexicographically first monomial's leading coefficient positive
@@ -573,6 +596,26 @@ class Canon:
 
     def linchain(self, chain, value):
         """Sum over a binder chain.  Pair chains collapse into one summation variable q with predicates."""
+        # for b in A + B: the sum over A plus the sum over B;  for b in [v for inner]: the inner chain with b := v
+        for k_, (b, g) in enumerate(chain):
+            dom = b[3]
+            while dom[0] == 'call' and dom[1] in (S('list'), S('tuple')) and len(dom[2]) == 1 and dom[2][0][0] in ('cat', 'bin', 'comp', 'slice'):
+                dom = dom[2][0]
+            parts = list(dom[1]) if dom[0] == 'cat' else ([dom[2], dom[3]] if (dom[0] == 'bin' and dom[1] == 'Add') else None)
+            from .canon import replace as _replace
+            if parts is not None:
+                out = []
+                for part in parts:
+                    nb = ('bvar', next(self.it.ids), b[2], part)
+                    rest = tuple((_replace(bb, b, nb), _replace(gg, b, nb)) for bb, gg in chain[k_ + 1:])
+                    out += self.linchain(chain[:k_] + ((nb, _replace(g, b, nb)),) + rest, _replace(value, b, nb))
+                return out
+            if dom[0] == 'comp' and dom is not b[3] or (dom[0] == 'comp' and self.classify(b)[0] == 'other'):
+                inner = list(dom[1])
+                v2 = dom[2]
+                inner[-1] = (inner[-1][0], AND(inner[-1][1], _replace(g, b, v2)))
+                rest = tuple((_replace(bb, b, v2), _replace(gg, b, v2)) for bb, gg in chain[k_ + 1:])
+                return self.linchain(chain[:k_] + tuple(inner) + rest, _replace(value, b, v2))
         preds = []
         sumvar = None
         saved = dict(self.names)
